@@ -19,6 +19,8 @@ type Obj struct{ Pairs map[string]Val }
 type Clo struct {
 	Fn  *Func
 	Env *Frame
+	// KwDefaults: values of the keyword defaults written as expressions
+	KwDefaults map[string]Val
 }
 
 type Frame struct {
@@ -134,6 +136,10 @@ type Print struct{ E Expr }
 type KwParam struct {
 	Name    string
 	Default int
+	// DefaultExpr, when set, replaces Default: an expression over the enclosing scope, evaluated when the
+	// literal is evaluated (the generator only uses variables that are not reassigned afterwards, so
+	// evaluating it at call time would give the same value)
+	DefaultExpr Expr
 }
 type Func struct {
 	Params []string
@@ -198,6 +204,10 @@ func (e *Func) Src() string {
 	var ps []string
 	ps = append(ps, e.Params...)
 	for _, k := range e.Kw {
+		if k.DefaultExpr != nil {
+			ps = append(ps, fmt.Sprintf("%s: %s", k.Name, k.DefaultExpr.Src()))
+			continue
+		}
 		ps = append(ps, fmt.Sprintf("%s: %d", k.Name, k.Default))
 	}
 	var body []string
@@ -326,6 +336,8 @@ func (m *Machine) call(c *Clo, pos []Val, kw map[string]Val, kwOrder []string) (
 	for _, k := range c.Fn.Kw {
 		if v, ok := kw[k.Name]; ok {
 			fr.Vars[k.Name] = v
+		} else if dv, ok := c.KwDefaults[k.Name]; ok {
+			fr.Vars[k.Name] = dv
 		} else {
 			fr.Vars[k.Name] = k.Default
 		}
@@ -483,7 +495,20 @@ func (m *Machine) eval(e Expr, fr *Frame) (Val, error) {
 		return Nil{}, nil
 	case *Func:
 		// the closure captures the defining frame by reference
-		return &Clo{Fn: x, Env: &Frame{Vars: map[string]Val{}, Outer: fr}}, nil
+		clo := &Clo{Fn: x, Env: &Frame{Vars: map[string]Val{}, Outer: fr}}
+		for _, k := range x.Kw {
+			if k.DefaultExpr != nil {
+				v, err := m.eval(k.DefaultExpr, fr)
+				if err != nil {
+					return nil, err
+				}
+				if clo.KwDefaults == nil {
+					clo.KwDefaults = map[string]Val{}
+				}
+				clo.KwDefaults[k.Name] = v
+			}
+		}
+		return clo, nil
 	case *ArrLit:
 		a := &Arr{}
 		for _, el := range x.Elems {
